@@ -88,6 +88,10 @@ def variant_items():
     for d in ("2024-12-30", "2021-01-01", "2027-01-03"):
         out.append(["- " + d + " dated at a turn of the year"])
         out.append(["o P1 " + d + " dated at a turn of the year"])
+    # a page saved as ISO-8859-1 (the lone surrogate stands for the raw byte 0xE9): the compiler
+    # drops the byte and reports no error, so the page is error-free and its notes need ZIDs
+    out.append(["- caf\udce9 au lait, no zid yet"])
+    out.append(["o P1 2024-02-03 dated caf\udce9", "  second line \udce9"])
     # a create date after 2099: the ZID can only carry two of its year digits
     out.append(["- 2150-03-04 dated in the next century"])
     return out
